@@ -2328,6 +2328,63 @@ func (w *world) reproposalDuringPendingSyncScript() {
 	w.flushSync(n2)
 }
 
+// preparedThenFreshNewViewScript (four correct members): member 3 is prepared on A in view 0; the others are not and
+// elect member 1 for view 1 without member 3's vote, so the NEW_VIEW carries no proof and proposes a fresh block B.
+// Member 3 follows it (a valid NEW_VIEW), view 1 goes nowhere, member 3 times out: its vote for view 2 still carries
+// its proof of (view 0, A) - following a view does not unlock (C09, C01).
+func (w *world) preparedThenFreshNewViewScript() {
+	for _, n := range w.honest {
+		w.sync(n, nil)
+	}
+	w.take(2, "PP", 0)
+	w.take(3, "PP", 0)
+	w.take(3, "P", 2)
+	w.pool = nil
+	for _, id := range []uint64{0, 2, 1} {
+		w.election(w.byId[id], 1, 0)
+	}
+	w.takeV(1, "VC", 0, 1)
+	w.takeV(1, "VC", 2, 1)
+	if !w.takeV(3, "NV", 1, 1) {
+		w.rep.count("world:directed-prepared-then-fresh-new-view-setup-failed")
+		return
+	}
+	w.pool = nil
+	w.election(w.byId[3], 1, 1)
+}
+
+// borrowedShareScript (member 3 Byzantine): member 1 is prepared on A and holds its own COMMIT and member 0's (whose
+// random-seed share it has verified). The Byzantine member's COMMIT has a correctly signed header and carries member
+// 0's share. A share counts for the member it was made by (C08: COMMIT with a valid random-seed share): the COMMIT is
+// not counted, and no proof with that share in it reaches the commit callback (C03).
+func (w *world) borrowedShareScript() {
+	for _, n := range w.honest {
+		w.sync(n, nil)
+	}
+	w.take(1, "PP", 0)
+	w.take(2, "PP", 0)
+	w.take(1, "P", 2)
+	var a uint64
+	for _, m := range w.history {
+		if m.Kind == "PP" && m.Ref.View == 0 {
+			a = m.Ref.Hash
+		}
+	}
+	w.take(0, "P", 1)
+	w.take(0, "P", 2)
+	w.take(1, "C", 0)
+	n1 := w.byId[1]
+	if a == 0 || n1.hasCommitted(1) {
+		w.rep.count("world:directed-borrowed-share-setup-failed")
+		return
+	}
+	w.pool = nil
+	owner := uint64(0)
+	w.codec.replaySigs, w.codec.borrowShareOf = true, &owner
+	w.inject(n1, &aMsg{Kind: "C", Ref: aRef{3, worldInst, 1, 0, a}, Snd: aSig{3, true}, ShareOk: false}, "byz-C-borrowed-share")
+	w.codec.replaySigs, w.codec.borrowShareOf = false, nil
+}
+
 func (w *world) kf1ForkScript() {
 	for _, n := range w.honest {
 		w.sync(n, nil)
